@@ -28,15 +28,15 @@ impl Val {
     /// Return the indices of `y` in `self`.
     fn indices<'a>(&'a self, y: &'a Val) -> Result<Box<dyn Iterator<Item = usize> + 'a>, Error> {
         match (self, y) {
-            (Val::BStr(_), Val::BStr(y)) | (Val::TStr(_), Val::TStr(y)) if y.is_empty() => {
+            (Val::BStr(_) | Val::TStr(_), Val::BStr(y) | Val::TStr(y)) if y.is_empty() => {
                 Ok(Box::new(core::iter::empty()))
             }
-            (Val::TStr(x), Val::TStr(y)) => {
+            (Val::TStr(x), Val::TStr(y) | Val::BStr(y)) => {
                 let index = |(i, _, _)| x.get(i..i + y.len());
                 let iw = x.char_indices().map_while(index).enumerate();
                 Ok(Box::new(iw.filter_map(|(i, w)| (w == **y).then_some(i))))
             }
-            (Val::BStr(x), Val::BStr(y)) => {
+            (Val::BStr(x), Val::BStr(y) | Val::TStr(y)) => {
                 let iw = x.windows(y.len()).enumerate();
                 Ok(Box::new(iw.filter_map(|(i, w)| (w == **y).then_some(i))))
             }
@@ -61,7 +61,7 @@ impl Val {
     /// * `a` equals `b`.
     fn contains(&self, other: &Self) -> bool {
         match (self, other) {
-            (Self::BStr(l), Self::BStr(r)) | (Self::TStr(l), Self::TStr(r)) => l.contains_str(&**r),
+            (Self::BStr(l) | Self::TStr(l), Self::BStr(r) | Self::TStr(r)) => l.contains_str(&**r),
             (Self::Arr(l), Self::Arr(r)) => r.iter().all(|r| l.iter().any(|l| l.contains(r))),
             (Self::Obj(l), Self::Obj(r)) => r
                 .iter()
